@@ -410,7 +410,11 @@ def run_binner_histories(ctx, only=None):
     q = ctx.tier == 'quick'
     rng = random.Random(ctx.seed * 7919 + 1717)
     if only is None:
-        BH.check_design(ctx, thorough=not q)
+        # quick: the design-level run over the whole reachable graph is part of ./check C16 quick (same module); here the pairs
+        # run checks the clauses of the sound design for every ordered pair and TLC evaluates, per sequence, which design mutants
+        # it refutes (generate() requires each mutant to be refuted by many sequences)
+        if not q:
+            BH.check_design(ctx, thorough=True)
         A, walks = BH.generate(ctx, thorough=not q)
         longer = [w for w in walks if w['src'] == 'walk']
         pairs = [w for w in walks if w['src'] == 'pair']
@@ -479,11 +483,16 @@ def run(ctx):
                       vectors='2-4 (2-5) generic rows over 6 (7) wavelengths, every permutation (<=24; 5 rows: 40 sampled), sources array/text/hdf5, unit scales 1 and 4',
                       traces='2-24 rows, wavelengths k/8 um (k in 8..128), 3/4 columns, random order, three sources; 4 columns: widths 1/8 um (disjoint), random 1/8..2 um, or narrow channels + 1-3 broad bands; random native model of 16-70 contiguous cells with integer cm-1 edges',
                       model_vectors='3 (3-4) rows over wavelengths {4,5,6,8,9,12}, widths {1,5} um in all combinations (4 columns) / derived (3 columns), native cells 40/80/120 cm-1, every row order, three sources',
+                      binner_histories='observation (bins = 4 target bins of the BinnerHistory alphabet: overlapping, gapped, unsorted rows) -> create_binner() -> every ordered pair of 32 (40) '
+                      'operations (bindown with / without grid_width and error, bin_model, generate_spectrum_output x 3 sizes on 4 (5) native grids) and 120 (1200) random '
+                      'sequences of 6 (9); sources array (all), text / hdf5 / 3-column array (the longer ones + a quarter of the pairs)',
                       obsbin_exhaustive='2-3 (2-4) rows over {4,5,10,20} ({4,5,10,20,25}) um, widths {1,7} um, native cells 200/400/600 (100/200/300) cm-1, FluxBinner window algorithm on the 12.5 (0.5) cm-1 lattice')
     ctx.assumptions = ['distinct positive wavelengths, >=2 rows, 4 columns: 0 < width < 2 wl; 3 columns: lowest mirrored edge positive',
                        'widths / edges: either consistent reading accepted (wavelength-space or wavenumber-space)',
                        'HDF5 written by the harness in the layout taurex.taurex.main() writes (Output/Spectra/instrument_*)',
                        'TLC + CommunityModules Json/IOUtils; float64 evaluation of 10000/wl within 1e-12',
+                       'binner histories: wavelengths 10000/c and widths w wl^2/10000 put the loaded bins on the lattice bins (c, w) of the alphabet up to rounding (checked at 1e-12 / 1e-9); '
+                       'binned values compared with TLC\'s exact ones at 1e-9, exposed centres / widths and fresh-binner results bit for bit',
                        'model binned to the observation: the native model tiles an interval containing every observation bin (partial coverage is property C05); binned values compared at 1e-9 relative (vectors) / 2e-3 absolute on values 0..20 (traces)']
     for c in ('4col', '3col'):
         ctx.check_spec('exhaustive-' + c, 'MC_Observation', 'MC_Observation_%s_%s.cfg' % (c, t), need_actions=('LoadRows',) if c == '4col' and q else ())
